@@ -147,7 +147,7 @@ func sharedWrites(p *Prog, fn *ssa.Function, cfgField map[*types.Var]*types.Name
 func runC15(c *Ctx) {
 	p := c.P
 	// clauses this property shares with others (see DESIGN.md section 6a)
-	defer c.ImportRules("C14", "C14.1")
+	defer c.ImportRules("C14", "C14.1", "C14.4")
 	defer c.ImportRules("C03", "C03.13")
 	cfg := configTypes(p)
 	cfgField := structOfField(p, cfg)
